@@ -770,7 +770,7 @@ impl Default for Mix {
             lowlevel: 0,
             mergecommit: 2,
             churn: 1,
-            faultycommit: 0,
+            faultycommit: 1,
             rich: false,
             rich_info: false,
         }
